@@ -10,20 +10,40 @@
 //!        ENUMERATED by stateless depth-first search (re-execution with a longer forced prefix).
 //!        Answer: final snapshot, elapsed present?, to_json keys, critical sections per call, complete?.
 //!   `STRESS init=… threads=… per=… amounts=…`  free-running threads (no scheduler), final counter.
-//!   `MRUN coll=0|1 pre=… runs=…`  real pipelines run through `Runner::run_collect` with / without a collector.
+//!   `MRUN coll=0|1 pre=… runs=… <pipeline>`  GENERATED pipelines (`pipe::gen_prog`, reorder-inert and hazard-free)
+//!        built with the public builders and collected with / without a collector; the request carries the
+//!        pipeline's description (the `PIPE` grammar) and the MODEL plans and executes it inside `runCollectProg`,
+//!        so the expected result is computed, not echoed.
+//!   `MSLEEP sleep=… ticks=… <pipeline>`  a pipeline whose closure sleeps, run 1..3 times on one pipeline.
+//!   `MPOISON how=… checks=… <pipeline>`  a collector that survived a panic inside a critical section is attached.
+//!   `MOVF checks=… init=… add=…`  one increment at the u64 boundary.
+//!   `SMOKE`  every public call on one thread under a watchdog (a self-dead-locking call = HANG, not a hung check).
 //!
 //! Oracles (independent of the Lean model):
 //!   * increment-only programs: final counter = initial + Σ increments            (`lost-update`)
 //!   * any program: the final snapshot is one the REAL code produces when the same calls are made one
 //!     after the other in some order that respects each thread's program order   (`non-serializable-outcome`)
 //!   * every name registered / set / incremented is a key of `to_json()`         (`json-missing-registered-key`)
+//!   * `to_json()[k].value == snapshot()[k]` for every stored k; no other member except the execution time,
+//!     which equals `elapsed().as_millis()`                                      (`json-value-differs-from-snapshot`,
+//!     `json-has-unregistered-member`, `json-execution-time-differs-from-elapsed`, `json-execution-time-missing`;
+//!     KNOWN FINDING `json-user-metric-shadowed-by-execution-time`)
 //!   * free-running stress: final = init + Σ                                    (`lost-update-free-running`)
 //!   * result with a collector attached == result without                        (`collector-changed-result`)
+//!   * result == plain-vector reference interpreter `pipe::reference`            (`pipeline-result-differs-from-reference`)
 //!   * after a successful run `elapsed()` is `Some`                              (`elapsed-missing-after-success`)
+//!   * after EVERY run of the sleeping pipeline SLEEP_MS <= elapsed() <= wall time of that run
+//!     (so a second run refreshes both stamps)                                   (`elapsed-outside-run-window`)
+//!   * below 2^64 an increment is exact; at the boundary the metric stays a counter and the
+//!     collector stays usable                   (`overflow-corrupts-counter`, `collector-unusable-after-overflow`)
+//!   * every call returns: scheduler time-out (confirmed by re-execution), watchdogs around free-running
+//!     threads and pipeline runs, SMOKE, and a progress watchdog over the whole check (`collector-call-hangs`,
+//!     `run-does-not-terminate`)
 
 use crate::ctx::{Ctx, guarded};
+use crate::pipe::{self, Fn_, Mode as PMode, Outcome, Prog as PProg, Shape, Step, V};
 use ironbeam::metrics::{CounterMetric, GaugeMetric, Metric, MetricsCollector};
-use ironbeam::{ExecMode, NodeId, Pipeline, Runner, Sum, from_vec};
+use ironbeam::{ExecMode, NodeId, Pipeline, Runner, from_vec};
 use std::cell::{Cell, RefCell};
 use std::collections::{BTreeMap, BTreeSet, HashSet};
 use std::sync::{Arc, Mutex, Once};
@@ -142,11 +162,84 @@ fn canon_snapshot(c: &MetricsCollector) -> String {
     rows.sort();
     join_or(rows, ",")
 }
-fn json_keys(c: &MetricsCollector) -> Vec<String> {
+const EXEC_KEY: &str = "execution_time_ms";
+const EXEC_DESC: &str = "Total pipeline execution time in milliseconds";
+
+fn is_exec_entry(e: &serde_json::Value) -> bool {
+    e.get("description").and_then(|d| d.as_str()) == Some(EXEC_DESC) && e.get("value").is_some_and(|v| v.is_u64())
+}
+
+/// What `to_json()` shows, canonically: sorted `key:val` (`c<n>` / `g<n>` for a metric's value, `T` for the
+/// execution-time member), the sorted keys, and the verdict of the property's own statement about the
+/// export evaluated on the REAL values (independent of the model): every metric of the snapshot is a member
+/// with exactly its value; nothing else is a member except the execution time, which equals `elapsed()`.
+struct JsonObs {
+    canon: String,
+    keys: Vec<String>,
+    fail: Option<(&'static str, String)>,
+}
+fn json_obs(c: &MetricsCollector) -> JsonObs {
+    let snap = c.snapshot();
+    let el = c.elapsed();
     let j = c.to_json();
-    let mut ks: Vec<String> = j.as_object().map(|m| m.keys().cloned().collect()).unwrap_or_default();
-    ks.sort();
-    ks
+    let empty = serde_json::Map::new();
+    let obj = j.as_object().unwrap_or(&empty);
+    let mut rows = vec![];
+    let mut keys = vec![];
+    let mut fail: Option<(&'static str, String)> = None;
+    let set_fail = |sig: &'static str, d: String, fail: &mut Option<(&'static str, String)>| {
+        // a listed known finding must not mask another failure of the same case
+        if fail.is_none() || fail.as_ref().is_some_and(|f| f.0 == "json-user-metric-shadowed-by-execution-time") {
+            *fail = Some((sig, d));
+        }
+    };
+    for (k, e) in obj {
+        keys.push(k.clone());
+        let v = e.get("value").cloned().unwrap_or(serde_json::Value::Null);
+        let shown = if is_exec_entry(e) && k == EXEC_KEY {
+            "T".to_string()
+        } else if let Some(n) = v.as_u64() {
+            format!("c{n}")
+        } else if let Some(f) = v.as_f64() {
+            format!("g{}", f as u64)
+        } else {
+            "?".to_string()
+        };
+        rows.push(format!("{k}:{shown}"));
+        match snap.get(k) {
+            Some(sv) => {
+                if *sv != v || (is_exec_entry(e) && k == EXEC_KEY) {
+                    if k == EXEC_KEY && is_exec_entry(e) {
+                        set_fail("json-user-metric-shadowed-by-execution-time", format!("snapshot has {k} = {sv} but to_json()[{k}] is the execution time {e}"), &mut fail);
+                    } else {
+                        set_fail("json-value-differs-from-snapshot", format!("to_json()[{k}].value = {v}, snapshot()[{k}] = {sv}"), &mut fail);
+                    }
+                }
+            }
+            None => {
+                if !(k == EXEC_KEY && is_exec_entry(e)) {
+                    set_fail("json-has-unregistered-member", format!("to_json() has {k} = {e} which is not a stored metric"), &mut fail);
+                }
+            }
+        }
+        if k == EXEC_KEY && is_exec_entry(e) {
+            let ms = el.map(|d| d.as_millis() as u64);
+            if v.as_u64() != ms || ms.is_none() {
+                set_fail("json-execution-time-differs-from-elapsed", format!("to_json()[{k}].value = {v}, elapsed() = {el:?}"), &mut fail);
+            }
+        }
+    }
+    for k in snap.keys() {
+        if !obj.contains_key(k) {
+            set_fail("json-missing-registered-key", format!("{k} is in the snapshot but to_json keys = {keys:?}"), &mut fail);
+        }
+    }
+    if el.is_some() && !obj.get(EXEC_KEY).is_some_and(is_exec_entry) {
+        set_fail("json-execution-time-missing", format!("elapsed() = {el:?} but to_json() has no execution-time member"), &mut fail);
+    }
+    rows.sort();
+    keys.sort();
+    JsonObs { canon: join_or(rows, ","), keys, fail }
 }
 
 // ---------------------------------------------------------------------------------------------
@@ -164,10 +257,25 @@ const NO_GRANT: usize = usize::MAX;
 struct Coop {
     st: Vec<std::sync::atomic::AtomicU8>,
     grant: std::sync::atomic::AtomicUsize,
+    /// set by the scheduler when it gives up on this execution (a managed thread neither parked nor
+    /// finished within `HANG_SECS`): parked threads then run on freely so that they do not spin for ever
+    abandoned: std::sync::atomic::AtomicBool,
 }
 
-fn wait_until(mut cond: impl FnMut() -> bool) {
+/// a critical section of the collector lasts microseconds; a managed thread that stays RUNNING this long
+/// is blocked (a lock taken twice, a lock held across a yield point, …): the execution is a HANG
+const HANG_SECS: u64 = 10;
+static HANGS: std::sync::atomic::AtomicUsize = std::sync::atomic::AtomicUsize::new(0);
+/// time-outs that did not repeat (machine stalls), reported in the evidence
+static STALLS: std::sync::atomic::AtomicUsize = std::sync::atomic::AtomicUsize::new(0);
+fn hangs() -> usize {
+    HANGS.load(std::sync::atomic::Ordering::Relaxed)
+}
+
+/// spin, then yield, then micro-sleep until `cond` holds; `false` when `limit` elapsed first
+fn wait_until(limit: Option<std::time::Duration>, mut cond: impl FnMut() -> bool) -> bool {
     let mut n = 0u32;
+    let mut t0: Option<std::time::Instant> = None;
     while !cond() {
         n += 1;
         if n < 4000 {
@@ -176,8 +284,15 @@ fn wait_until(mut cond: impl FnMut() -> bool) {
             std::thread::yield_now();
         } else {
             std::thread::sleep(std::time::Duration::from_micros(50));
+            if let Some(l) = limit {
+                let t = *t0.get_or_insert_with(std::time::Instant::now);
+                if t.elapsed() > l {
+                    return cond();
+                }
+            }
         }
     }
+    true
 }
 
 thread_local! {
@@ -195,8 +310,14 @@ fn install_callback() {
             let me = ME.with(|m| m.borrow().clone());
             if let Some((tid, coop)) = me {
                 use std::sync::atomic::Ordering::{Acquire, Release};
+                if coop.abandoned.load(Acquire) {
+                    return;
+                }
                 coop.st[tid].store(PARKED, Release);
-                wait_until(|| coop.grant.load(Acquire) == tid);
+                wait_until(None, || coop.grant.load(Acquire) == tid || coop.abandoned.load(Acquire));
+                if coop.abandoned.load(Acquire) {
+                    return;
+                }
                 coop.grant.store(NO_GRANT, Release);
                 SECS.with(|s| s.set(s.get() + 1));
             }
@@ -212,11 +333,12 @@ fn pool_submit(worker: usize, job: Job) {
     let mut p = POOL.lock().unwrap();
     while p.len() <= worker {
         let (tx, rx) = std::sync::mpsc::channel::<Job>();
-        std::thread::spawn(move || {
+        let name = format!("c16-sched-{}", p.len());
+        std::thread::Builder::new().name(name).spawn(move || {
             while let Ok(j) = rx.recv() {
                 j();
             }
-        });
+        }).expect("spawn");
         p.push(tx);
     }
     p[worker].send(job).expect("worker alive");
@@ -243,12 +365,18 @@ struct Exec {
     secs: Vec<Vec<u32>>,
     snap: String,
     keys: Vec<String>,
+    json: String,
+    json_fail: Option<(&'static str, String)>,
     el: bool,
     panicked: bool,
+    hang: bool,
 }
 
 impl Exec {
     fn answer(&self) -> String {
+        if self.hang {
+            return "HANG".into();
+        }
         if self.panicked {
             return "PANIC".into();
         }
@@ -259,18 +387,49 @@ impl Exec {
             .collect::<Vec<_>>()
             .join("/");
         format!(
-            "snap={} el={} keys={} secs={} complete={}",
+            "snap={} el={} json={} secs={} complete={}",
             self.snap,
             if self.el { "T" } else { "F" },
-            join_or(self.keys.clone(), ","),
+            self.json,
             secs,
             if self.complete { "T" } else { "F" }
         )
     }
 }
 
-/// Run `prog` on a fresh collector with real threads under the cooperative scheduler.
-fn execute(init: &Init, prog: &Prog, mut policy: Policy) -> Exec {
+/// Run `prog` on a fresh collector with real threads under the cooperative scheduler. A time-out is
+/// CONFIRMED by re-running the schedule prefix that led to it (on a fresh collector, fresh threads): a
+/// deadlock is deterministic at lock granularity and hangs again; a stall of the machine (the box is shared,
+/// load averages of 60 on 16 cores occur) does not. Only a confirmed time-out is reported as HANG.
+fn execute(init: &Init, prog: &Prog, policy: Policy) -> Exec {
+    let (ex, again) = match policy {
+        Policy::Prefix(p) => {
+            let ex = execute_once(init, prog, Policy::Prefix(p));
+            if !ex.hang {
+                return ex;
+            }
+            (ex, execute_once(init, prog, Policy::Prefix(p)))
+        }
+        Policy::Random(r) => {
+            let ex = execute_once(init, prog, Policy::Random(r));
+            if !ex.hang {
+                return ex;
+            }
+            // same choices up to the time-out, then the lowest enabled thread: a complete schedule
+            let mut again = execute_once(init, prog, Policy::Prefix(&ex.taken));
+            again.complete = !again.hang;
+            (ex, again)
+        }
+    };
+    if again.hang {
+        HANGS.fetch_add(1, std::sync::atomic::Ordering::Relaxed);
+        return Exec { taken: ex.taken, ..again };
+    }
+    STALLS.fetch_add(1, std::sync::atomic::Ordering::Relaxed);
+    again
+}
+
+fn execute_once(init: &Init, prog: &Prog, mut policy: Policy) -> Exec {
     install_callback();
     let n = prog.len();
     let coll = mk_collector(init);
@@ -278,6 +437,7 @@ fn execute(init: &Init, prog: &Prog, mut policy: Policy) -> Exec {
     let coop = Arc::new(Coop {
         st: (0..n).map(|_| std::sync::atomic::AtomicU8::new(RUNNING)).collect(),
         grant: std::sync::atomic::AtomicUsize::new(NO_GRANT),
+        abandoned: std::sync::atomic::AtomicBool::new(false),
     });
     let (rtx, rrx) = std::sync::mpsc::channel::<(usize, Option<Vec<u32>>)>();
     for (tid, ops) in prog.iter().enumerate() {
@@ -306,9 +466,13 @@ fn execute(init: &Init, prog: &Prog, mut policy: Policy) -> Exec {
     let mut complete = false;
     let mut pos = 0usize; // position in a forced prefix
     let mut prefix_done = false;
+    let mut hang = false;
     loop {
         // wait until no managed thread is running
-        wait_until(|| coop.st.iter().all(|s| s.load(Acquire) != RUNNING));
+        if !wait_until(Some(std::time::Duration::from_secs(HANG_SECS)), || coop.st.iter().all(|s| s.load(Acquire) != RUNNING)) {
+            hang = true;
+            break;
+        }
         let enabled: Vec<usize> = (0..n).filter(|i| coop.st[*i].load(Acquire) == PARKED).collect();
         let choice = match &mut policy {
             Policy::Prefix(p) => {
@@ -353,6 +517,14 @@ fn execute(init: &Init, prog: &Prog, mut policy: Policy) -> Exec {
             complete = true;
         }
     }
+    if hang {
+        // release the parked threads, abandon the blocked one(s) together with their worker threads
+        // (a thread blocked on a mutex cannot be cancelled), and never touch this collector again
+        coop.abandoned.store(true, Release);
+        POOL.lock().unwrap_or_else(std::sync::PoisonError::into_inner).clear();
+        std::mem::forget(coll);
+        return Exec { taken, enabled: enabled_log, complete: false, secs: vec![vec![]; n], snap: String::new(), keys: vec![], json: String::new(), json_fail: None, el: false, panicked: false, hang: true };
+    }
     let mut secs = vec![vec![]; n];
     let mut panicked = false;
     for _ in 0..n {
@@ -361,10 +533,10 @@ fn execute(init: &Init, prog: &Prog, mut policy: Policy) -> Exec {
             _ => panicked = true,
         }
     }
-    let obs = guarded(|| (canon_snapshot(&coll), json_keys(&coll), coll.elapsed().is_some()));
+    let obs = guarded(|| (canon_snapshot(&coll), json_obs(&coll), coll.elapsed().is_some()));
     match obs {
-        Ok((snap, keys, el)) => Exec { taken, enabled: enabled_log, complete, secs, snap, keys, el, panicked },
-        Err(_) => Exec { taken, enabled: enabled_log, complete, secs, snap: String::new(), keys: vec![], el: false, panicked: true },
+        Ok((snap, j, el)) => Exec { taken, enabled: enabled_log, complete, secs, snap, keys: j.keys, json: j.canon, json_fail: j.fail, el, panicked, hang: false },
+        Err(_) => Exec { taken, enabled: enabled_log, complete, secs, snap: String::new(), keys: vec![], json: String::new(), json_fail: None, el: false, panicked: true, hang: false },
     }
 }
 
@@ -477,9 +649,14 @@ fn emit(cx: &mut Ctx, init: &Init, prog: &Prog, sched: &[usize], ex: &Exec, orc:
     let nt = prog.iter().filter(|t| !t.is_empty()).count() >= 2;
     let req = format!("METRICS init={} th={} sched={}", enc_init(init), enc_prog(prog), enc_sched(sched));
     let i = cx.case(req, ex.answer(), nt);
+    tick(cx);
     cx.count(&format!("metrics:{what}"));
     let max_secs = ex.secs.iter().flatten().copied().max().unwrap_or(0);
     cx.count(&format!("metrics:max-sections-per-call={max_secs}"));
+    if ex.hang {
+        cx.oracle_fail(i, "collector-call-hangs", format!("after the schedule prefix {:?} a thread neither reached its next lock acquisition nor finished within {HANG_SECS} s", ex.taken));
+        return;
+    }
     if ex.panicked {
         cx.oracle_fail(i, "collector-panicked", "a collector call panicked".into());
         return;
@@ -509,11 +686,18 @@ fn emit(cx: &mut Ctx, init: &Init, prog: &Prog, sched: &[usize], ex: &Exec, orc:
             return;
         }
     }
+    if let Some((sig, d)) = &ex.json_fail {
+        cx.oracle_fail(i, sig, d.clone());
+    }
 }
 
 /// Enumerate every complete schedule of `prog` on the real code (stateless DFS); returns the number of
 /// executions and whether the enumeration was cut off by `cap`.
 fn explore(cx: &mut Ctx, init: &Init, prog: &Prog, cap: usize, what: &str) -> (usize, bool) {
+    if hangs() >= 2 {
+        cx.count("metrics:skipped-after-2-hangs");
+        return (0, true);
+    }
     let orc = prog_oracle(init, prog);
     let mut prefix: Vec<usize> = vec![];
     let mut runs = 0usize;
@@ -524,6 +708,9 @@ fn explore(cx: &mut Ctx, init: &Init, prog: &Prog, cap: usize, what: &str) -> (u
         ex.complete = true;
         let sched = ex.taken.clone();
         emit(cx, init, prog, &sched, &ex, &orc, what);
+        if ex.hang {
+            return (runs, true);
+        }
         // backtrack: deepest position with an untried (larger) enabled thread
         let mut next = None;
         for j in (0..ex.taken.len()).rev() {
@@ -583,6 +770,39 @@ fn binary_weight_prog(threads: usize, per: usize) -> Prog {
 // ---------------------------------------------------------------------------------------------
 
 fn stress(cx: &mut Ctx, init: Option<u64>, threads: usize, per: usize, amounts: &[u64], jitter: bool) {
+    let amounts_v = amounts.to_vec();
+    let want: u64 = init.unwrap_or(0) + (0..threads).map(|t| amounts[t % amounts.len()] * per as u64).sum::<u64>();
+    let req = format!(
+        "STRESS init={} threads={threads} per={per} amounts={}",
+        init.map(|n| n.to_string()).unwrap_or_else(|| "none".into()),
+        amounts.iter().map(|x| x.to_string()).collect::<Vec<_>>().join(",")
+    );
+    // the whole free-running run sits under a watchdog: a deadlocking collector gives HANG, not a hung check
+    let r = pipe::with_watchdog(180, move || stress_body(init, threads, per, &amounts_v, jitter));
+    let (got, panicked) = match r {
+        Some(Ok(x)) => x,
+        Some(Err(_)) => (Err("panic".to_string()), true),
+        None => {
+            HANGS.fetch_add(1, std::sync::atomic::Ordering::Relaxed);
+            let i = cx.case(req, "HANG".into(), true);
+            cx.oracle_fail(i, "collector-call-hangs", format!("{threads} free-running threads x {per} increments did not finish within 180 s"));
+            return;
+        }
+    };
+    let real = match (&got, panicked) {
+        (Ok(Some(n)), false) => format!("final={n} complete=T"),
+        _ => "PANIC".into(),
+    };
+    let i = cx.case(req, real, threads >= 2);
+    tick(cx);
+    cx.count("stress:runs");
+    cx.count_n("stress:increments", (threads * per) as u64);
+    if got != Ok(Some(want)) {
+        cx.oracle_fail(i, "lost-update-free-running", format!("{threads} threads x {per} increments: final {got:?}, initial + sum = {want}"));
+    }
+}
+
+fn stress_body(init: Option<u64>, threads: usize, per: usize, amounts: &[u64], jitter: bool) -> (Result<Option<u64>, String>, bool) {
     let coll = MetricsCollector::new();
     if let Some(n) = init {
         coll.set_counter("ctr", n);
@@ -608,86 +828,46 @@ fn stress(cx: &mut Ctx, init: Option<u64>, threads: usize, per: usize, amounts: 
     for h in hs {
         panicked |= h.join().is_err();
     }
-    let want: u64 = init.unwrap_or(0) + (0..threads).map(|t| amounts[t % amounts.len()] * per as u64).sum::<u64>();
     let got = guarded(|| coll.snapshot().get("ctr").and_then(|v| v.as_u64()));
-    let real = match (&got, panicked) {
-        (Ok(Some(n)), false) => format!("final={n} complete=T"),
-        _ => "PANIC".into(),
-    };
-    let req = format!(
-        "STRESS init={} threads={threads} per={per} amounts={}",
-        init.map(|n| n.to_string()).unwrap_or_else(|| "none".into()),
-        amounts.iter().map(|x| x.to_string()).collect::<Vec<_>>().join(",")
-    );
-    let i = cx.case(req, real, threads >= 2);
-    cx.count("stress:runs");
-    cx.count_n("stress:increments", (threads * per) as u64);
-    if got != Ok(Some(want)) {
-        cx.oracle_fail(i, "lost-update-free-running", format!("{threads} threads x {per} increments: final {got:?}, initial + sum = {want}"));
-    }
+    (got, panicked)
 }
 
 // ---------------------------------------------------------------------------------------------
 // pipelines with / without a collector
 // ---------------------------------------------------------------------------------------------
 
-#[derive(Clone, Copy, Debug)]
-enum Mode {
-    Seq,
-    Par(usize),
-}
-
-fn fnv(s: &str) -> u64 {
-    let mut h: u64 = 0xcbf2_9ce4_8422_2325;
-    for b in s.bytes() {
-        h ^= u64::from(b);
-        h = h.wrapping_mul(0x0100_0000_01b3);
-    }
-    h
-}
-fn token<T: std::fmt::Debug + Ord>(mut v: Vec<T>) -> String {
-    v.sort();
-    format!("n{}h{:016x}", v.len(), fnv(&format!("{v:?}")))
-}
-/// for pipelines without a barrier the engines preserve the input order: compare the sequence itself
-fn token_ordered<T: std::fmt::Debug>(v: Vec<T>) -> String {
-    format!("o{}h{:016x}", v.len(), fnv(&format!("{v:?}")))
-}
 const SLEEP_MS: u64 = 4;
+const GAP_MS: u64 = 25;
 
-/// Build pipeline number `which` on `p` over `data` and collect it; canonical token of the result.
-fn run_pipeline(p: &Pipeline, which: usize, data: &[i64], mode: Mode) -> anyhow::Result<String> {
-    macro_rules! collect {
-        ($c:expr) => {
-            match mode {
-                Mode::Seq => $c.collect_seq(),
-                Mode::Par(parts) => $c.collect_par(None, Some(parts)),
-            }
-        };
+fn outcome_of(r: Option<Result<anyhow::Result<Vec<V>>, String>>) -> Outcome {
+    match r {
+        None => Outcome::Hang,
+        Some(Err(msg)) => Outcome::Panic(msg),
+        Some(Ok(Err(e))) => Outcome::Err(format!("{e}")),
+        Some(Ok(Ok(rows))) => Outcome::Rows(rows),
     }
-    let src = from_vec(p, data.to_vec());
-    Ok(match which {
-        0 => token_ordered(collect!(src.map(|x: &i64| x * 2).filter(|x: &i64| x % 3 != 0))?),
-        6 => token_ordered(collect!(from_vec(p, vec![data.len() as i64]).map(|x: &i64| {
-            std::thread::sleep(std::time::Duration::from_millis(SLEEP_MS));
-            x + 1
-        }))?),
-        1 => {
-            let g = collect!(src.key_by(|x: &i64| x.rem_euclid(5)).group_by_key())?;
-            token(g.into_iter().map(|(k, mut vs)| { vs.sort(); (k, vs) }).collect())
-        }
-        2 => token(collect!(src.key_by(|x: &i64| x.rem_euclid(4)).map_values(|v: &i64| v + 1).combine_values(Sum::<i64>::new()))?),
-        3 => {
-            let left = src.key_by(|x: &i64| x.rem_euclid(7));
-            let right = from_vec(p, data.iter().map(|x| x * 10).collect::<Vec<i64>>()).key_by(|x: &i64| (x / 10).rem_euclid(3));
-            token(collect!(left.join_inner(&right))?)
-        }
-        4 => token(collect!(src.combine_globally(Sum::<i64>::new(), None))?),
-        _ => token(collect!(src.flat_map(|x: &i64| vec![*x, x + 1]).distinct())?),
-    })
 }
 
-/// One `run_collect` that fails while planning (`pe`) or while executing (`ee`).
+/// Build `prog` with the public builders on the GIVEN pipeline (which may carry a collector) and collect
+/// it with the real engine; canonical `PIPE` answer.
+fn run_prog_on(p: &Pipeline, prog: &PProg, mode: PMode) -> String {
+    let mut out = Outcome::Hang;
+    // a run that does not come back within 10 s is tried once more with 30 s before it counts as a HANG
+    for secs in [10, 30] {
+        let (p2, prog2) = (p.clone(), prog.clone());
+        out = outcome_of(pipe::with_watchdog(secs, move || {
+            let c = pipe::build(&p2, &prog2);
+            pipe::collect(c, mode)
+        }));
+        if !matches!(out, Outcome::Hang) {
+            break;
+        }
+    }
+    pipe::outcome_answer(&out, prog.canon())
+}
+
+/// One `run_collect` that fails while planning (`pe`: unknown terminal node) or while executing
+/// (`ee`: the requested element type is not the collection's).
 fn run_failing(p: &Pipeline, kind: &str) -> String {
     let r = Runner { mode: ExecMode::Sequential, ..Default::default() };
     match kind {
@@ -705,15 +885,19 @@ fn run_failing(p: &Pipeline, kind: &str) -> String {
     }
 }
 
-fn mrun(cx: &mut Ctx, which: usize, data: &[i64], mode: Mode, pre: &[Op], runs: &[&str], hammer: bool) {
-    // reference: the same pipeline on a pipeline WITHOUT a collector
-    let base = guarded(|| run_pipeline(&Pipeline::default(), which, data, mode));
-    let want = match &base {
-        Ok(Ok(t)) => t.clone(),
-        Ok(Err(_)) => "ERR".into(),
-        Err(_) => "PANIC".into(),
-    };
-    let run_tokens: Vec<String> = runs.iter().map(|k| if *k == "ok" { format!("ok:{want}") } else { format!("{k}:x") }).collect();
+/// the request text of a pipeline: the `PIPE` grammar without the `PIPE` kind
+fn prog_text(prog: &PProg, mode: PMode) -> String {
+    prog.request(&mode.enc()).trim_start_matches("PIPE ").to_string()
+}
+
+/// `MRUN`: the same generated program collected (a) on a pipeline without a collector — the baseline —,
+/// (b) on a second pipeline without one, (c) on a pipeline WITH a collector, optionally while another
+/// thread hammers that collector. The model computes the expected result from the program's description.
+fn mrun(cx: &mut Ctx, prog: &PProg, mode: PMode, pre: &[Op], runs: &[&str], hammer: bool) {
+    let canon = prog.canon();
+    let base = run_prog_on(&Pipeline::default(), prog, mode);
+    // independent plain-Rust evaluation of the same steps (no ironbeam, no Lean)
+    let want_ref = pipe::ref_answer(&pipe::reference(prog), canon);
     for with in [false, true] {
         let p = Pipeline::default();
         let coll = MetricsCollector::new();
@@ -744,52 +928,69 @@ fn mrun(cx: &mut Ctx, which: usize, data: &[i64], mode: Mode, pre: &[Op], runs: 
         let mut mismatch = None;
         for k in runs {
             if *k == "ok" {
-                let r = guarded(|| run_pipeline(&p, which, data, mode));
-                let t = match &r {
-                    Ok(Ok(t)) => t.clone(),
-                    Ok(Err(_)) => "ERR".into(),
-                    Err(_) => "PANIC".into(),
-                };
-                if t != want {
+                let t = run_prog_on(&p, prog, mode);
+                if t != base {
                     mismatch = Some(t.clone());
                 }
-                res.push(format!("ok:{t}"));
-                last_ok = matches!(r, Ok(Ok(_)));
+                last_ok = t.starts_with("OK");
+                res.push(t);
             } else {
-                res.push(guarded(|| run_failing(&p, k)).unwrap_or_else(|_| "PANIC".into()));
+                let (p2, k2) = (p.clone(), k.to_string());
+                res.push(match pipe::with_watchdog(10, move || run_failing(&p2, &k2)) {
+                    None => "HANG".into(),
+                    Some(Err(_)) => "PANIC".into(),
+                    Some(Ok(t)) => t,
+                });
                 last_ok = false;
             }
         }
         stop.store(true, std::sync::atomic::Ordering::Relaxed);
         let hammered = hammer_thread.map(|h| h.join().unwrap_or(0));
         let got = p.get_metrics();
-        let mut real = format!("res={} coll={}", res.join(","), if got.is_some() { "T" } else { "F" });
+        let mut real = format!("coll={}", if got.is_some() { "T" } else { "F" });
         let mut el = false;
+        let mut jfail = None;
         let mut keys = vec![];
-        let mut elapsed_before = None;
         if let Some(c) = &got {
-            elapsed_before = c.elapsed();
-            el = elapsed_before.is_some();
-            keys = json_keys(c);
-            let probe = c.clone();
+            el = c.elapsed().is_some();
+            let j = json_obs(c);
+            let strip = |s: &str| join_or(s.split(',').filter(|r| !r.starts_with("hammer:") && *r != "-").map(String::from).collect(), ",");
+            let json_s = strip(&j.canon);
+            let snap_s = strip(&canon_snapshot(c));
+            keys = j.keys;
+            jfail = j.fail;
             // is a start stamp present? observable as: after one more record_end an elapsed time exists
-            let snap_before = canon_snapshot(c);
-            let keys_s = join_or(keys.iter().filter(|k| *k != "hammer").cloned().collect(), ",");
-            let snap_s = join_or(snap_before.split(',').filter(|r| !r.starts_with("hammer:") && *r != "-").map(String::from).collect(), ",");
-            probe.record_end();
-            let start_set = probe.elapsed().is_some();
+            c.record_end();
+            let start_set = c.elapsed().is_some();
+            let taken = p.take_metrics().is_some();
+            let after = p.get_metrics().is_some();
             real.push_str(&format!(
-                " el={} start={} keys={} snap={}",
+                " el={} start={} json={} snap={} take={} after={}",
                 if el { "T" } else { "F" },
                 if start_set { "T" } else { "F" },
-                keys_s,
-                snap_s
+                json_s,
+                snap_s,
+                if taken { "T" } else { "F" },
+                if after { "T" } else { "F" }
             ));
+            if !taken || after {
+                jfail = Some(("take-metrics-wrong", format!("take_metrics().is_some() = {taken}, get_metrics() afterwards is_some() = {after}")));
+            }
         }
-        let req = format!("MRUN coll={} pre={} runs={}", u8::from(with), enc_ops(pre), run_tokens.join(","));
-        let i = cx.case(req, real, with && !data.is_empty());
-        cx.count(&format!("mrun:pipeline{which}:{}", match mode { Mode::Seq => "seq", Mode::Par(_) => "par" }));
+        real.push_str(&format!(" res= {}", res.join(" ;; ")));
+        let req = format!("MRUN coll={} pre={} runs={} {}", u8::from(with), enc_ops(pre), runs.join(","), prog_text(prog, mode));
+        let i = cx.case(req, real, with && prog.src.len() >= 2 && !prog.steps.is_empty());
+        tick(cx);
+        cx.count(&format!("mrun:mode:{}", match mode { PMode::Seq => "seq", PMode::Par(_) => "par" }));
         cx.count(if with { "mrun:with-collector" } else { "mrun:without-collector" });
+        cx.count(&format!("mrun:outcome:{}", base.split(' ').next().unwrap_or("")));
+        if with {
+            pipe::count_prog(cx, prog);
+        }
+        if res.iter().any(|r| r == "HANG") || base == "HANG" {
+            cx.oracle_fail(i, "run-does-not-terminate", format!("no result within 10 s: baseline {base}, runs {res:?}"));
+            continue;
+        }
         if let Some(n) = hammered {
             cx.count("mrun:hammered-during-run");
             if let Some(c) = &got {
@@ -800,18 +1001,13 @@ fn mrun(cx: &mut Ctx, which: usize, data: &[i64], mode: Mode, pre: &[Op], runs: 
             }
         }
         if let Some(t) = mismatch {
-            cx.oracle_fail(i, "collector-changed-result", format!("pipeline {which} {mode:?}: without collector {want}, {} {t}", if with { "with collector" } else { "second pipeline without collector" }));
+            cx.oracle_fail(i, "collector-changed-result", format!("{} {}: without collector {base}, {} {t}", prog_text(prog, mode), mode.enc(), if with { "with collector" } else { "second pipeline without collector" }));
+        }
+        if base != want_ref {
+            cx.oracle_fail(i, "pipeline-result-differs-from-reference", format!("{}: real (no collector) {base}, plain-vector reference {want_ref}", prog_text(prog, mode)));
         }
         if with && last_ok && !el {
             cx.oracle_fail(i, "elapsed-missing-after-success", "run_collect returned Ok but elapsed() is None".into());
-        }
-        if with && last_ok && which == 6 {
-            // the closure sleeps SLEEP_MS: stamps taken around the execution must be at least that far apart
-            if let Some(d) = elapsed_before {
-                if d < std::time::Duration::from_millis(SLEEP_MS) {
-                    cx.oracle_fail(i, "elapsed-does-not-cover-run", format!("the run slept {SLEEP_MS} ms but elapsed() = {d:?}"));
-                }
-            }
         }
         if with {
             for k in written_names(&vec![], &vec![pre.to_vec()]) {
@@ -819,7 +1015,71 @@ fn mrun(cx: &mut Ctx, which: usize, data: &[i64], mode: Mode, pre: &[Op], runs: 
                     cx.oracle_fail(i, "json-missing-registered-key", format!("{k} registered before the run, to_json keys = {keys:?}"));
                 }
             }
+            if let Some((sig, d)) = jfail {
+                cx.oracle_fail(i, sig, d);
+            }
         }
+    }
+}
+
+/// `MSLEEP`: a pipeline whose closure sleeps `SLEEP_MS`, run `nruns` times on one pipeline with a collector
+/// (`GAP_MS` apart). The stamps are taken inside the run, on both sides of the sleep, so after EVERY run
+/// `SLEEP_MS <= elapsed() <= wall time of THAT run` (measured here around the call): a start stamp that is
+/// not refreshed by the second run gives an elapsed time above the window, an end stamp that is not
+/// refreshed gives zero (`duration_since` saturates). `execution_time_ms` of `to_json()` must be that elapsed time.
+fn msleep(cx: &mut Ctx, mode: PMode, nruns: usize) {
+    let n0 = 5i64;
+    let prog = PProg { shape: Shape::T, src: vec![V::I(n0)], steps: vec![Step::Map(Fn_::Add(1))] };
+    let p = Pipeline::default();
+    let coll = MetricsCollector::new();
+    p.set_metrics(coll.clone());
+    let sleep = std::time::Duration::from_millis(SLEEP_MS);
+    let (mut els, mut jts, mut res, mut ticks) = (vec![], vec![], vec![], vec![]);
+    let mut fails: Vec<(&'static str, String)> = vec![];
+    for r in 0..nruns {
+        if r > 0 {
+            std::thread::sleep(std::time::Duration::from_millis(GAP_MS));
+        }
+        let p2 = p.clone();
+        let w0 = std::time::Instant::now();
+        let out = outcome_of(pipe::with_watchdog(10, move || {
+            let c = from_vec(&p2, vec![V::I(n0)]).map(move |v: &V| {
+                std::thread::sleep(sleep);
+                Fn_::Add(1).eval(v)
+            });
+            pipe::collect(pipe::Coll::T(c), mode)
+        }));
+        let wall = w0.elapsed();
+        res.push(pipe::outcome_answer(&out, "seq"));
+        let el = coll.elapsed();
+        let class = match el {
+            None => "none",
+            Some(d) if d < sleep => "below",
+            Some(d) if d > wall => "above",
+            Some(_) => "in",
+        };
+        if class != "in" {
+            fails.push(("elapsed-outside-run-window", format!("run {} slept {SLEEP_MS} ms and took {wall:?} of wall time, but elapsed() = {el:?} ({class})", r + 1)));
+        }
+        let j = coll.to_json();
+        let jv = j.get(EXEC_KEY).filter(|e| is_exec_entry(e)).and_then(|e| e.get("value")).and_then(|v| v.as_u64());
+        let jt = match el { Some(d) => jv == Some(d.as_millis() as u64), None => j.get(EXEC_KEY).is_none() };
+        if !jt {
+            fails.push(("json-execution-time-differs-from-elapsed", format!("run {}: elapsed() = {el:?}, to_json()[execution_time_ms] = {:?}", r + 1, j.get(EXEC_KEY))));
+        }
+        els.push(class);
+        jts.push(if jt { "T" } else { "F" });
+        // nominal clock handed to the model: the harness reads w0, the run stamps a and b = a + sleep, the harness reads w1
+        let b = 100 * r as u64;
+        ticks.push(format!("{}.{}.{}.{}", b, b + 1, b + 1 + SLEEP_MS, b + 2 + SLEEP_MS));
+    }
+    let req = format!("MSLEEP sleep={SLEEP_MS} ticks={} {}", ticks.join(","), prog_text(&prog, mode));
+    let real = format!("el={} jt={} res= {}", els.join(","), jts.join(","), res.join(" ;; "));
+    let i = cx.case(req, real, nruns >= 2);
+    tick(cx);
+    cx.count(&format!("msleep:runs={nruns}"));
+    for (sig, d) in fails {
+        cx.oracle_fail(i, sig, d);
     }
 }
 
@@ -830,17 +1090,23 @@ impl Metric for Panicky {
     fn as_any(&self) -> &dyn std::any::Any { self }
 }
 
-/// `MPOISON how=… want=<token>`: a panic inside a critical section of the collector (u64 overflow of
+/// is this build compiled with overflow checks (the harness and ironbeam share one cargo profile)?
+fn overflow_checks() -> bool {
+    guarded(|| {
+        let x = std::hint::black_box(u64::MAX);
+        #[allow(arithmetic_overflow)]
+        let y = x + std::hint::black_box(1);
+        std::hint::black_box(y)
+    })
+    .is_err()
+}
+
+/// `MPOISON how=… checks=…  <pipeline>`: a panic inside a critical section of the collector (u64 overflow of
 /// `count + value` with overflow checks on; a user metric whose `value()` panics during `snapshot()`),
 /// caught by the caller; afterwards the collector is attached to a pipeline and the pipeline is run.
-fn poison_case(cx: &mut Ctx, how: &str) {
-    let data: Vec<i64> = (0..40).collect();
-    let tok = |r: Result<anyhow::Result<String>, String>| match r {
-        Ok(Ok(t)) => format!("ok:{t}"),
-        Ok(Err(_)) => "ERR".to_string(),
-        Err(_) => "PANIC".to_string(),
-    };
-    let want = tok(guarded(|| run_pipeline(&Pipeline::default(), 1, &data, Mode::Seq)));
+fn poison_case(cx: &mut Ctx, how: &str, prog: &PProg, mode: PMode) {
+    let checks = overflow_checks();
+    let base = run_prog_on(&Pipeline::default(), prog, mode);
     let c = MetricsCollector::new();
     match how {
         "overflow" => {
@@ -855,12 +1121,57 @@ fn poison_case(cx: &mut Ctx, how: &str) {
         _ => c.set_counter("c", 1),
     }
     let p = Pipeline::default();
-    p.set_metrics(c);
-    let got = tok(guarded(|| run_pipeline(&p, 1, &data, Mode::Seq)));
-    let i = cx.case(format!("MPOISON how={how} want={}", want.trim_start_matches("ok:")), format!("res={got}"), how != "none");
+    p.set_metrics(c.clone());
+    let got = run_prog_on(&p, prog, mode);
+    let cv = if how == "usermetric" { "-".to_string() } else {
+        guarded(|| c.snapshot().get("c").and_then(|v| v.as_u64())).ok().flatten().map_or("?".into(), |n| n.to_string())
+    };
+    let i = cx.case(format!("MPOISON how={how} checks={} {}", u8::from(checks), prog_text(prog, mode)), format!("c={cv} res= {got}"), how != "none");
+    tick(cx);
     cx.count(&format!("mpoison:{how}"));
-    if got != want {
-        cx.oracle_fail(i, "poisoned-collector-changed-result", format!("pipeline without collector: {want}; with a collector that had a panic inside a critical section ({how}): {got}"));
+    if got != base {
+        cx.oracle_fail(i, "poisoned-collector-changed-result", format!("pipeline without collector: {base}; with a collector that had a panic inside a critical section ({how}): {got}"));
+    }
+}
+
+/// `MOVF`: one `increment_counter("c", add)` at the `u64` boundary. Whatever the build profile does with the
+/// overflowing addition (panic / wrap), afterwards the collector must still be usable and the metric still
+/// a counter; below the boundary the sum must be exact.
+fn overflow_case(cx: &mut Ctx, init: Option<Result<u64, ()>>, add: u64) {
+    let checks = overflow_checks();
+    let c = MetricsCollector::new();
+    match init {
+        Some(Ok(n)) => c.set_counter("c", n),
+        Some(Err(())) => { let mut h = c.clone(); h.register(boxed("c", Val::G(1))); }
+        None => {}
+    }
+    let call = guarded(|| c.increment_counter("c", add));
+    let snap = guarded(|| canon_snapshot(&c)).unwrap_or_else(|_| "PANIC".into());
+    let usable = guarded(|| { c.increment_counter("other", 1); c.snapshot().get("other").and_then(|v| v.as_u64()) }) == Ok(Some(1));
+    let req = format!("MOVF checks={} init={} add={add}", u8::from(checks), match init { Some(Ok(n)) => n.to_string(), Some(Err(())) => "g".into(), None => "none".into() });
+    let i = cx.case(req, format!("call={} snap={snap}", if call.is_ok() { "ok" } else { "PANIC" }), true);
+    tick(cx);
+    cx.count("movf:cases");
+    if !usable {
+        cx.oracle_fail(i, "collector-unusable-after-overflow", format!("after increment_counter(c, {add}) on {init:?} the collector no longer accepts calls"));
+    }
+    if let Some(Ok(n)) = init {
+        match n.checked_add(add) {
+            Some(sum) => {
+                if call.is_err() || snap != format!("c:c{sum}") {
+                    cx.oracle_fail(i, "lost-update", format!("{n} + {add} fits u64 but the call gave {call:?}, snapshot {snap}"));
+                }
+            }
+            None => {
+                // beyond the counter type the sum law cannot hold for any u64 counter (out of the property's
+                // scope): the only demands are that the metric is still a counter and the collector usable;
+                // WHAT the code does there (panic / wrap) is pinned by the correspondence with `incAtomic64`
+                cx.count("movf:overflowing");
+                if !snap.starts_with("c:c") {
+                    cx.oracle_fail(i, "overflow-corrupts-counter", format!("{n} + {add} overflows u64; afterwards the metric is not a counter any more: {snap}"));
+                }
+            }
+        }
     }
 }
 
@@ -926,6 +1237,7 @@ fn lock_sites(cx: &mut Ctx) {
 // ---------------------------------------------------------------------------------------------
 
 const A4: [Op; 4] = [Op::Inc("a", 1), Op::Inc("a", 2), Op::Set("a", 5), Op::RegC("a", 7)];
+const A3: [Op; 3] = [Op::Inc("a", 1), Op::Set("a", 5), Op::RegC("a", 7)];
 const A7: [Op; 7] =
     [Op::Inc("a", 1), Op::Inc("a", 2), Op::Set("a", 5), Op::RegC("a", 7), Op::RegG("a", 3), Op::Inc("b", 4), Op::St];
 
@@ -945,7 +1257,112 @@ fn random_op(cx: &mut Ctx) -> Op {
     }
 }
 
+/// `SMOKE`: every public call of the collector (and the pipeline's metric calls), one after the other on
+/// ONE thread, on collectors in every state the calls distinguish (name absent / counter / other metric),
+/// under a watchdog. Everything else in this check makes such calls on the harness's own thread (the serial
+/// oracle, the `pre` calls of MRUN, MOVF, …): a call that dead-locks on its own (a lock taken twice) would
+/// hang the CHECK instead of being reported. If this block does not come back the verdict is HANG and the
+/// remaining blocks are skipped.
+fn smoke(cx: &mut Ctx) -> bool {
+    let body = || {
+        let ops = [
+            Op::Inc("a", 1), Op::Inc("a", 2), Op::Set("a", 5), Op::Inc("a", 1), Op::RegC("a", 7), Op::Inc("a", 3), Op::RegG("a", 3),
+            Op::Inc("a", 1), Op::El, Op::Js, Op::St, Op::El, Op::Js, Op::En, Op::El, Op::Js, Op::Sn, Op::Inc("b", 4), Op::Inc("b", 4),
+            Op::Set("execution_time_ms", 9), Op::Inc("execution_time_ms", 1), Op::Js, Op::St, Op::En,
+        ];
+        for init in [vec![], vec![("a", Val::C(10))], vec![("a", Val::G(2))]] {
+            let c = mk_collector(&init);
+            for op in &ops {
+                apply(&c, op);
+            }
+            let _ = (canon_snapshot(&c), json_obs(&c).canon, c.elapsed());
+            let p = Pipeline::default();
+            p.set_metrics(c.clone());
+            p.record_metrics_start();
+            p.record_metrics_end();
+            let _ = p.get_metrics().map(|m| m.elapsed());
+            let _ = p.take_metrics();
+            p.record_metrics_start();
+            p.record_metrics_end();
+        }
+    };
+    let mut r = pipe::with_watchdog(20, body);
+    if r.is_none() {
+        r = pipe::with_watchdog(60, body); // confirm: a machine stall does not repeat, a dead-lock does
+    }
+    let real = match &r { Some(Ok(())) => "ok", Some(Err(_)) => "PANIC", None => "HANG" };
+    let i = cx.case("SMOKE".into(), real.into(), false);
+    tick(cx);
+    match r {
+        Some(Ok(())) => true,
+        Some(Err(msg)) => {
+            cx.oracle_fail(i, "collector-panicked", format!("a collector call made on one thread, without any concurrency, panicked: {msg}"));
+            true
+        }
+        None => {
+            cx.oracle_fail(i, "collector-call-hangs", "a sequence of collector / pipeline metric calls made on ONE thread did not return within 60 s (a call dead-locks on its own); all other blocks skipped".into());
+            false
+        }
+    }
+}
+
+/// progress of the worker thread (cases registered so far), watched by `run`
+static PROGRESS: std::sync::atomic::AtomicU64 = std::sync::atomic::AtomicU64::new(0);
+static LAST_REQ: Mutex<String> = Mutex::new(String::new());
+fn tick(cx: &Ctx) {
+    PROGRESS.fetch_add(1, std::sync::atomic::Ordering::Relaxed);
+    if let (Some(r), Ok(mut g)) = (cx.reqs.last(), LAST_REQ.try_lock()) {
+        g.clear();
+        g.push_str(r);
+    }
+}
+/// no new case for this long = some call on the worker's own thread does not return
+const STALL_SECS: u64 = 240;
+
+/// The whole check runs on a worker thread; this thread only watches its progress. Every block has its own
+/// guard (SMOKE, the scheduler's time-out, watchdogs around free-running threads and pipeline runs), but the
+/// worker also calls the real collector directly (serial oracle, `pre` calls, MOVF, …): should such a call
+/// block in a state the SMOKE block did not reach, the check must still END with a verdict — HANG, a
+/// violation — instead of hanging itself.
 pub fn run(cx: &mut Ctx) {
+    let (prop, seed, tier) = (cx.prop.clone(), cx.seed, cx.tier);
+    let (tx, rx) = std::sync::mpsc::channel::<Ctx>();
+    std::thread::Builder::new()
+        .name("c16-worker".into())
+        .stack_size(64 << 20)
+        .spawn(move || {
+            let mut inner = Ctx::new(&prop, seed, tier);
+            run_inner(&mut inner);
+            let _ = tx.send(inner);
+        })
+        .expect("spawn");
+    let mut last = (PROGRESS.load(std::sync::atomic::Ordering::Relaxed), std::time::Instant::now());
+    loop {
+        match rx.recv_timeout(std::time::Duration::from_secs(1)) {
+            Ok(inner) => {
+                *cx = inner;
+                return;
+            }
+            Err(std::sync::mpsc::RecvTimeoutError::Disconnected) => panic!("C16 worker thread died"),
+            Err(std::sync::mpsc::RecvTimeoutError::Timeout) => {
+                let p = PROGRESS.load(std::sync::atomic::Ordering::Relaxed);
+                if p != last.0 {
+                    last = (p, std::time::Instant::now());
+                } else if last.1.elapsed().as_secs() > STALL_SECS {
+                    let lastreq = LAST_REQ.lock().map(|g| g.clone()).unwrap_or_default();
+                    let i = cx.case("SMOKE".into(), "HANG".into(), false);
+                    cx.oracle_fail(i, "collector-call-hangs", format!("the check made no progress for {STALL_SECS} s after {p} cases: a call into the real code does not return (last registered request: {lastreq})"));
+                    return;
+                }
+            }
+        }
+    }
+}
+
+fn run_inner(cx: &mut Ctx) {
+    if !smoke(cx) {
+        return;
+    }
     let init10: Init = vec![("a", Val::C(10))];
     // the exhaustive blocks do not depend on the seed: the search tier keeps the quick shapes and
     // spends its larger budget on the random blocks
@@ -955,8 +1372,28 @@ pub fn run(cx: &mut Ctx) {
     lock_sites(cx);
     // a collector whose mutex was poisoned by a panic inside one of its own critical sections must
     // still not change (here: abort) the pipeline it is attached to
-    for how in ["overflow", "usermetric", "none"] {
-        poison_case(cx, how);
+    {
+        let kv = |k: i64, v: i64| V::pair(V::I(k), V::I(v));
+        let fixed = PProg { shape: Shape::KV, src: (0..40).map(|i| kv(i % 5, i)).collect(), steps: vec![Step::Gbk] };
+        for how in ["overflow", "usermetric", "none"] {
+            poison_case(cx, how, &fixed, PMode::Seq);
+            let g = gen_inert_prog(cx, 0);
+            let mode = if cx.rng.chance(1, 2) { PMode::Seq } else { PMode::Par(1 + cx.rng.below(4)) };
+            poison_case(cx, how, &g, mode);
+        }
+    }
+    // the u64 boundary of `count + value`
+    for (init, add) in [
+        (Some(Ok(u64::MAX)), 1u64), (Some(Ok(u64::MAX)), 2), (Some(Ok(u64::MAX - 1)), 1), (Some(Ok(u64::MAX - 1)), 2),
+        (Some(Ok(u64::MAX - 5)), 5), (Some(Ok(u64::MAX - 5)), 6), (Some(Ok(1 << 63)), 1 << 63), (Some(Ok(1 << 63)), (1 << 63) - 1),
+        (Some(Ok(7)), u64::MAX), (Some(Ok(0)), u64::MAX), (None, u64::MAX), (Some(Err(())), u64::MAX), (Some(Ok(10)), 5),
+    ] {
+        overflow_case(cx, init, add);
+    }
+    for _ in 0..cx.budget(10, 100) {
+        let near = u64::MAX - cx.rng.below(20) as u64;
+        let add = cx.rng.below(40) as u64;
+        overflow_case(cx, Some(Ok(near)), add);
     }
 
     // (1) corpus: design witness of defect #14 (two threads, one increment each, read-read-write-write)
@@ -983,7 +1420,7 @@ pub fn run(cx: &mut Ctx) {
     };
     // (2) exhaustive small scope: every program of the shape over the alphabet x EVERY complete schedule
     let shapes: Vec<Vec<usize>> = if quick {
-        vec![vec![1, 1], vec![2, 1], vec![1, 2], vec![2, 2], vec![1, 1, 1], vec![2, 1, 1]]
+        vec![vec![1, 1], vec![2, 1], vec![1, 2], vec![2, 2], vec![3, 1], vec![1, 3], vec![3, 2], vec![2, 3], vec![1, 1, 1], vec![2, 1, 1]]
     } else {
         vec![
             vec![1, 1], vec![2, 1], vec![1, 2], vec![2, 2], vec![3, 1], vec![1, 3], vec![3, 2], vec![2, 3], vec![3, 3],
@@ -1005,6 +1442,46 @@ pub fn run(cx: &mut Ctx) {
         "METRICS: init a=10; every program of shapes {shapes:?} (ops per thread) over {{inc a 1, inc a 2, set a 5, register counter a 7}} x every complete lock-granular schedule of the real code: {total_progs} programs, {total_scheds} schedules, {truncated} programs cut off at {cap} schedules"
     ));
     lap("A4");
+    // two threads x THREE mixed calls each (quick tier too): every program over {inc, set, register}
+    {
+        let (mut s3, mut p3, mut t3) = (0usize, 0usize, 0usize);
+        for prog in all_progs(&A3, &[3, 3]) {
+            let (r, cut) = explore(cx, &init10, &prog, cap, "exhaustive-A3-3x3");
+            s3 += r;
+            p3 += 1;
+            t3 += usize::from(cut);
+        }
+        cx.exhaustive_blocks.push(format!(
+            "METRICS: init a=10; every program of shape [3, 3] over {{inc a 1, set a 5, register counter a 7}} x every complete schedule: {p3} programs, {s3} schedules, {t3} cut off"
+        ));
+    }
+    lap("A3 3x3");
+    // THREE threads x THREE mixed calls each: every thread runs one of the mixed kind sequences of the menu
+    // (I = increment by a distinct power of two, S = set, R = register a counter; distinct values per
+    // position, so the final value tells which serialisation happened); all multisets of three sequences
+    // in the thorough tier, two programs in the quick tier; EVERY complete schedule (1680 per program)
+    {
+        let menu: Vec<&str> = vec!["ISI", "SIR", "IRS", "RII", "IIS", "SRI", "ISS", "RSR"];
+        let mut picks: Vec<[usize; 3]> = vec![];
+        if quick {
+            picks.push([0, 1, 2]);
+            picks.push([3, 4, 5]);
+        } else {
+            for a in 0..menu.len() { for b in a..menu.len() { for c in b..menu.len() { picks.push([a, b, c]); } } }
+        }
+        let (mut s9, mut t9) = (0usize, 0usize);
+        for pk in &picks {
+            let prog: Prog = pk.iter().enumerate().map(|(t, m)| mixed_thread(menu[*m], t)).collect();
+            let (r, cut) = explore(cx, &init10, &prog, cap, "exhaustive-3-threads-x-3-mixed");
+            s9 += r;
+            t9 += usize::from(cut);
+        }
+        cx.exhaustive_blocks.push(format!(
+            "METRICS: init a=10; 3 threads x 3 mixed calls each, thread programs drawn from the kind sequences {menu:?} (I inc / S set / R register, distinct amounts): {} programs x every complete schedule = {s9} schedules, {t9} cut off at {cap}",
+            picks.len()
+        ));
+    }
+    lap("3x3x3 mixed");
     // wider alphabet (gauge under the same name, a second name, record_start), absent initial counter
     let mut s7 = 0usize;
     let mut p7 = 0usize;
@@ -1043,6 +1520,10 @@ pub fn run(cx: &mut Ctx) {
     // (3) random programs, random schedules; plus arbitrary (possibly incomplete / over-long) forced schedules
     let rounds = cx.budget(250, 6000);
     for _ in 0..rounds {
+        if hangs() >= 2 {
+            cx.count("metrics:skipped-after-2-hangs");
+            break;
+        }
         let nthreads = 2 + cx.rng.below(3);
         let prog: Prog = (0..nthreads).map(|_| { let l = cx.rng.below(5); (0..l).map(|_| random_op(cx)).collect() }).collect();
         let init: Init = match cx.rng.below(4) {
@@ -1070,6 +1551,10 @@ pub fn run(cx: &mut Ctx) {
     lap("random");
     // 16 threads under the scheduler, increments only, random schedules
     for _ in 0..cx.budget(10, 200) {
+        if hangs() >= 2 {
+            cx.count("metrics:skipped-after-2-hangs");
+            break;
+        }
         let per = 1 + cx.rng.below(4);
         let prog: Prog = (0..16).map(|t| (0..per).map(|_| Op::Inc("a", 1 + (t as u64 % 5))).collect()).collect();
         let init: Init = vec![("a", Val::C(cx.rng.below(1000) as u64))];
@@ -1090,6 +1575,10 @@ pub fn run(cx: &mut Ctx) {
     // (4) free-running stress (no scheduler): 16 threads x 20 000 increments and smaller shapes
     let reps = cx.budget(1, 3);
     for r in 0..reps {
+        if hangs() > 0 {
+            cx.count("stress:skipped-after-a-hang");
+            break;
+        }
         stress(cx, Some(5), 16, 20_000, &[1], false);
         stress(cx, None, 16, 20_000, &[1, 2, 3], r % 2 == 0);
         stress(cx, Some(1000), 2, 50_000, &[1, 7], false);
@@ -1098,39 +1587,91 @@ pub fn run(cx: &mut Ctx) {
     }
 
     lap("stress");
-    // (5) real pipelines with and without a collector
-    let prounds = cx.budget(6, 60);
+    // (5) real pipelines with and without a collector: GENERATED programs (pipe::gen_prog: every transform
+    // family, barriers, joins, global combines), reorder-inert and hazard-free so that the plain-vector
+    // reference applies; the model computes the expected result from the description
+    let prounds = cx.budget(70, 700);
     for round in 0..prounds {
-        for which in 0..6 {
-            let len = *cx.rng.pick(&[0usize, 1, 2, 17, 60, 200]);
-            let data: Vec<i64> = (0..len).map(|_| cx.rng.range(-20, 40)).collect();
-            let mode = if cx.rng.chance(1, 2) { Mode::Seq } else { Mode::Par(1 + cx.rng.below(7)) };
-            let npre = cx.rng.below(4);
-            let pre: Vec<Op> = (0..npre)
-                .map(|_| match cx.rng.below(4) {
-                    0 => Op::RegC("rows", cx.rng.below(100) as u64),
-                    1 => Op::RegG("ratio", cx.rng.below(9) as u64),
-                    2 => Op::Inc("calls", 1 + cx.rng.below(5) as u64),
-                    _ => Op::Set("execution_time_ms", 9),
-                })
-                .collect();
-            let runs: Vec<&str> = match (round + which) % 6 {
-                0 | 1 => vec!["ok"],
-                2 => vec!["ok", "ok"],
-                3 => vec!["pe"],
-                4 => vec!["ok", "pe"],
-                _ => vec!["ee", "ok"],
-            };
-            let hammer = (round + which) % 3 == 0;
-            mrun(cx, which, &data, mode, &pre, &runs, hammer);
+        let prog = gen_inert_prog(cx, round);
+        let mode = if cx.rng.chance(1, 2) { PMode::Seq } else { PMode::Par(*cx.rng.pick(&pipe::partition_choices(prog.src.len()))) };
+        let npre = cx.rng.below(4);
+        let pre: Vec<Op> = (0..npre)
+            .map(|_| match cx.rng.below(4) {
+                0 => Op::RegC("rows", cx.rng.below(100) as u64),
+                1 => Op::RegG("ratio", cx.rng.below(9) as u64),
+                2 => Op::Inc("calls", 1 + cx.rng.below(5) as u64),
+                _ => Op::Set("execution_time_ms", 9),
+            })
+            .collect();
+        let runs: Vec<&str> = match round % 7 {
+            0 | 1 => vec!["ok"],
+            2 => vec!["ok", "ok"],
+            3 => vec!["pe"],
+            4 => vec!["ok", "pe"],
+            5 => vec!["ee", "ok"],
+            _ => vec!["ok", "ee"],
+        };
+        let hammer = hangs() == 0 && round % 3 == 0;
+        mrun(cx, &prog, mode, &pre, &runs, hammer);
+    }
+    {
+        let small = PProg { shape: Shape::T, src: (1..=5).map(V::I).collect(), steps: vec![Step::Map(Fn_::Mul(2)), Step::Filter(pipe::Pred::Ne(6))] };
+        for runs in [vec!["pe"], vec!["ee"], vec!["pe", "ee", "ok"], vec!["ok", "ee", "pe"]] {
+            mrun(cx, &small, PMode::Seq, &[Op::RegC("rows", 1)], &runs, false);
         }
+        // the shadowing witness: a user counter named execution_time_ms, then a successful run
+        mrun(cx, &small, PMode::Seq, &[Op::Set("execution_time_ms", 9)], &["ok"], false);
     }
     lap("pipelines");
-    for mode in [Mode::Seq, Mode::Par(2)] {
-        mrun(cx, 6, &[1, 2, 3], mode, &[], &["ok"], false);
-        mrun(cx, 6, &[1, 2], mode, &[Op::RegC("rows", 2)], &["pe", "ok"], false);
+    // (6) sleeping pipeline, run once / twice / three times: elapsed covers exactly the LAST run
+    for mode in [PMode::Seq, PMode::Par(2)] {
+        for nruns in [1usize, 2, 3] {
+            msleep(cx, mode, nruns);
+        }
     }
-    for runs in [vec!["pe"], vec!["ee"], vec!["pe", "ee", "ok"], vec!["ok", "ee", "pe"]] {
-        mrun(cx, 0, &[1, 2, 3, 4, 5], Mode::Seq, &[Op::RegC("rows", 1)], &runs, false);
+    for _ in 0..cx.budget(0, 6) {
+        let mode = if cx.rng.chance(1, 2) { PMode::Seq } else { PMode::Par(1 + cx.rng.below(3)) };
+        msleep(cx, mode, 2);
     }
+    lap("sleep");
+    let stalls = STALLS.load(std::sync::atomic::Ordering::Relaxed);
+    if stalls > 0 {
+        cx.count_n("metrics:time-outs-not-confirmed-by-re-execution(machine-stall)", stalls as u64);
+    }
+}
+
+/// a generated program in which the value-only reorder pass is the identity (known finding of C02/C03)
+/// and no hash-ordered list reaches an order-sensitive step: for these the plain-vector reference is exact
+fn gen_inert_prog(cx: &mut Ctx, round: usize) -> PProg {
+    let opts = pipe::GenOpts {
+        max_steps: 7,
+        max_rows: cx.budget(16, 40),
+        barriers: round % 2 == 0,
+        joins: round % 5 == 0,
+        globals: round % 3 == 0,
+        nonlocal_batches: false,
+    };
+    loop {
+        let p = pipe::gen_prog(&mut cx.rng, &opts);
+        if pipe::reorder_inert(&p) && pipe::hazard_free(&p) {
+            return p;
+        }
+        cx.count("mrun:generated-program-rejected(reorder-active-or-hash-order-hazard)");
+    }
+}
+
+/// thread `t` of a 3 x 3 mixed program: the kind sequence with amounts that identify thread and position
+fn mixed_thread(kinds: &str, t: usize) -> Vec<Op> {
+    kinds
+        .chars()
+        .enumerate()
+        .map(|(j, k)| {
+            let pos = (3 * t + j) as u64;
+            match k {
+                'I' => Op::Inc("a", 1 << pos),
+                'S' => Op::Set("a", 1000 * (pos + 1)),
+                _ => Op::RegC("a", 100_000 * (pos + 1)),
+            }
+        })
+        .collect()
 }
